@@ -324,3 +324,32 @@ Proof.
   etransitivity; [apply gen_dSIR_effective_degree, Phi_ed_length|].
   apply (ebcm_to_ed c t N tau g phiS0 phiR0 ps psP theta Hth Hw R); assumption.
 Qed.
+
+(* the compact effective degree and effective degree identities with the closures the wrappers pass *)
+From EoNV Require Import Graph IC ICP C07xIC.
+Lemma effective_degree_from_graph g rho_opt t tau gam theta R :
+  wf_ugraph g = true ->
+  let r := rho_or_default g rho_opt in let c := fg_coeffs g r in let N := gN g in
+  ~ tau == 0 -> ~ theta == 0 -> ~ D c theta == 0 -> ~ D c 1 == 0 ->
+  ~ peval (phiS_p c (fg_phiS0 r)) theta == 0 ->
+  ~ peval (phiI_p c tau gam (fg_phiS0 r) fg_phiR0) theta + peval (phiR_p tau gam fg_phiR0) theta == 0 ->
+  ~ peval (u_p tau gam fg_phiR0) theta == 0 ->
+  let e := dEBCM [theta; R] t N tau gam (fg_psihat g r) (fg_psihatPrime g r) (fg_phiS0 r) fg_phiR0 in
+  veq (dSIR_compact_effective_degree (Phi_ced c N tau gam (fg_phiS0 r) fg_phiR0 theta R) t N tau gam)
+      (DPhi_ced c N tau gam (fg_phiS0 r) fg_phiR0 theta (vnth 0 e) (vnth 1 e)) /\
+  veq (g_dSIR_effective_degree (Phi_ed c N tau gam (fg_phiS0 r) fg_phiR0 theta R) t N (length c, length c) tau gam)
+      (DPhi_ed c N tau gam (fg_phiS0 r) fg_phiR0 theta (vnth 0 e) (vnth 1 e)).
+Proof.
+  intros WG r c N Ht Hth Ha Hc Hx Hw Hu. cbv zeta.
+  assert (H1 : ~ 1 == 0) by (intro H; discriminate H).
+  pose proof (gN_nonzero g WG) as HN.
+  split.
+  - apply ebcm_to_ced; try assumption.
+    + apply fg_psihat_poly; exact WG.
+    + apply fg_psihatPrime_poly; assumption.
+    + apply fg_psihatPrime_poly; assumption.
+  - apply ebcm_to_ed_generated; try assumption.
+    + apply fg_psihat_poly; exact WG.
+    + apply fg_psihatPrime_poly; assumption.
+    + apply fg_psihatPrime_poly; assumption.
+Qed.
